@@ -20,10 +20,16 @@ class Session:
         if k not in self._mir:
             path, tree, h = common.mir_dump(kind, featureset)
             self.tree = tree
+            self._mirpath = getattr(self, "_mirpath", {})
+            self._mirpath[k] = path
             self.report.extra["tree_hash"] = h
             with open(path) as fh:
                 self._mir[k] = mirparse.parse_mir(fh.read())
         return self._mir[k]
+
+    def mir_path(self, kind, featureset="default"):
+        self.mir(kind, featureset)
+        return self._mirpath[(kind, featureset)]
 
     def enums(self, featureset="default"):
         if featureset not in self._enums:
